@@ -474,3 +474,11 @@ def rule_inventory(ctx):
 
 
 RULES.append(("C01.m", "state-mutation inventory: no new site that changes the content of the state this property rests on", rule_inventory))
+
+
+def rule_mustpass(ctx):
+    from . import mustpass
+    mustpass.check(ctx, ['synccell-write-stores-value', 'synccell-write-closes-window', 'step-until-steps'])
+
+
+RULES.append(("C01.n", "must-pass-through: no path around the effects this property rests on (added fast paths / early returns)", rule_mustpass))
